@@ -166,7 +166,7 @@ def run(ctx):
         else:
             st, sk = rng.choice([(None, 'TNone'), (Time('2020-01-01T00:00:00'), 'TScalar'), (Time(58000.5, format='mjd'), 'TScalar')])
         if invalid == 'meta':
-            me, mk = rng.choice([(5, 'MNotDict'), ('ab', 'MNotDict'), ([1, 2], 'MNotDict'), (3.5, 'MNotDict')])
+            me, mk = rng.choice([(5, 'MNotDict'), ('ab', 'MNotDict'), ([1, 2], 'MNotDict'), (3.5, 'MNotDict'), (0, 'MNotDict'), (False, 'MNotDict'), (0.0, 'MNotDict'), (0j, 'MNotDict')])
         else:
             me, mk = rng.choice([(None, 'MNone'), ({'a': 1}, 'MDict'), ({}, 'MDict')])
         al = rng.choice(['bottom', 'center', 'top']) if invalid != 'align' else rng.choice(['middle', 'Center', '', 0, None, ['center'], ('top',)])
@@ -211,7 +211,7 @@ def run(ctx):
         z = X.make_signal(rng, cls, 4)
         attr = rng.choice(['sample_rate', 'start_time', 'meta'] + (['center_freq', 'chan_bw', 'freq_align'] if cls != 'Signal' else []) +
                           (['pol_type'] if cls == 'DualPolarizationSignal' else []))
-        bad = {'sample_rate': [0 * u.Hz, -1 * u.Hz, 1 * u.m, 3.0, np.ones(2) * u.Hz], 'start_time': [5.5, 'x', Time(['2020-01-01T00:00:00', '2020-01-02T00:00:00'], format='isot', precision=9), Time('2021-01-01T00:00:00', format='isot', precision=9) + np.arange(2) * u.s, Time([58000.5], format='mjd')], 'meta': [3, 'ab'],
+        bad = {'sample_rate': [0 * u.Hz, -1 * u.Hz, 1 * u.m, 3.0, np.ones(2) * u.Hz], 'start_time': [5.5, 'x', Time(['2020-01-01T00:00:00', '2020-01-02T00:00:00'], format='isot', precision=9), Time('2021-01-01T00:00:00', format='isot', precision=9) + np.arange(2) * u.s, Time([58000.5], format='mjd')], 'meta': [3, 'ab', 0, False, 0.0, 0j],
                'center_freq': [1 * u.s, 2.0, np.ones(2) * u.Hz], 'chan_bw': [0 * u.Hz, -2 * u.kHz, 1 * u.s, 4],
                'freq_align': ['mid', 3, None, ['center']], 'pol_type': ['x', 0, None, ['linear']]}[attr]
         v = rng.choice(bad)
